@@ -343,7 +343,7 @@ def run_robust(cmd, cases, timeout=900, died='DIED'):
     for dead, rc, err in crashes:
         if dead is not None and res[dead] is None:
             res[dead] = '%s rc=%d %s' % (died, rc, err.strip().replace('\n', ' | ')[:160])
-    for rnd in range(3):
+    for rnd in range(60):
         missing = [i for i, r in enumerate(res) if r is None]
         if not missing:
             break
